@@ -5,7 +5,6 @@ from common import *
 import joinfam
 
 LEVEL = "model_checking"
-READY = False  # flipped when the Layer-B model checks are wired in
 MANIFEST = dict(
     category="model_checking",
     text="Each implementation-shaped TLA+ module (SuperMinHash, SuperMinHash2, SetSketch, DensMinHash, FYShuffle, "
